@@ -1187,6 +1187,30 @@ var vhAllEvents = []int{
 	evFinalization, evHeightCommitted, evBlockData, evJumpAhead, evStaleView,
 }
 
+// vhTailEvents: the events that carry no new vote numbers (quick tier: last event of a sequence).
+var vhTailEvents = []int{
+	evHeader, evTimer, evPrevoteAnswer, evPrecommitAnswer, evProposal, evFinalization, evHeightCommitted,
+}
+
+// replayingCH: the mirror answered the last round entrance with a committed header.
+func (e *vhSM) replayingCH() bool {
+	rd := e.round()
+	return rd != nil && rd.catchupCH != nil
+}
+
+// runSeq: quick: 2 events of any kind then 1 event without new vote numbers;
+// thorough: 4 events of any kind.
+func (e *vhSM) runSeq(groups int) {
+	if verifrt.Thorough() {
+		e.run(groups, vhEvents(), 4)
+		return
+	}
+	e.run(groups, vhEvents(), 2)
+	if e.alive {
+		e.run(groups, vhTailEvents, 1)
+	}
+}
+
 // vhEvents: thorough adds the general view update (all numbers grow, a header may arrive).
 func vhEvents() []int {
 	if verifrt.Thorough() {
